@@ -1,7 +1,7 @@
 SPECIFICATION SSpec
 CONSTANTS
   DutySlots = {9}
-  Validators = {2}
+  Validators = {1, 2}
   SlotsPerEpoch = 4
   Relays = {1}
   NRelays = 1
@@ -9,26 +9,26 @@ CONSTANTS
   Versions = {"deneb"}
   Blindable = {"deneb"}
   Outcomes = {"full"}
-  Scripts = {"full", "err", "never"}
-  GraffitiOuts = {"static", "template", "err"}
-  PrepOuts = {"ok", "err"}
+  Scripts = {"full", "heldfull"}
+  GraffitiOuts = {"static"}
+  PrepOuts = {"ok"}
   CfgFilter = "graffiti"
-  Drops = TRUE
-  Dslots <- AllDslots
+  Drops = FALSE
+  Dslots <- FwdDslots
   MaxCalls = 3
-  NDuties = 2
-  SlotGaps = {1}
-  MaxOpen = 1
-  MaxInFlight = 1
-  InitCfgs <- AllCfgs
+  NDuties = 3
+  SlotGaps = {0, 1}
+  MaxOpen = 3
+  MaxInFlight = 2
+  InitCfgs <- BuilderCfgs
   LaterAllChoices = {{1}}
   LaterVersions = {"deneb"}
   LaterOutcomes = {"full"}
   LaterDslots = {0}
-  LaterScripts = {"full"}
-  LaterGraffitiOuts = {"static", "template", "err"}
+  LaterScripts = {"full", "heldfull"}
+  LaterGraffitiOuts = {"static"}
   LaterPrepOuts = {"ok"}
-  LaterNodeClientOuts = {"ok", "err"}
+  LaterNodeClientOuts = {"ok"}
   LaterStepOuts = {"ok"}
 INVARIANTS Emit
 CHECK_DEADLOCK FALSE
